@@ -1,4 +1,6 @@
 import Sudachi.Model.Cli
+import Sudachi.Model.PyGlue
+import Sudachi.Proofs.Edit
 /-! # Proofs about the CLI glue (C19) -/
 namespace Cli
 
@@ -66,5 +68,235 @@ theorem linesGo_shape : ∀ (file cur : Bytes), (∀ b ∈ cur, b ≠ 10) →
       rcases hb with rfl | hb
       · exact hx
       · exact hc b hb
+
+/-! ## the whole run -/
+
+/-- the texts handed to the tokenizer for one stripped line -/
+def unitsOf (lib : Lib) (f : Flags) (text : Bytes) : List Bytes :=
+  match f.split with | .only => [] | .none => [text] | .default => lib.split text
+
+def fmtRes (f : Flags) : TokRes → Bytes | .ok ms _ => format f ms | _ => []
+def dumpRes : TokRes → Bytes | .ok _ d => d | .err d => d | .missing => []
+
+/-- the library accepts the text (analysed with ALL fields) -/
+def Accepts (lib : Lib) (s : Bytes) : Prop := ∃ ms d, lib.tokenize subsetAll s = .ok ms d
+
+/-- specification of what the writer receives for one stripped line -/
+def specLine (lib : Lib) (f : Flags) (text : Bytes) : Bytes :=
+  match f.split with
+  | .only => (lib.split text).flatten
+  | _ => ((unitsOf lib f text).map (fun s => fmtRes f (lib.tokenize subsetAll s))).flatten
+
+/-- specification of what the debug tokenizer prints for one stripped line -/
+def dumpsLine (lib : Lib) (f : Flags) (text : Bytes) : Bytes :=
+  if f.debug then ((unitsOf lib f text).map (fun s => dumpRes (lib.tokenize subsetAll s))).flatten else []
+
+theorem analyzeOne_ok (lib : Lib) (f : Flags) (s : Bytes) (h : Accepts lib s) :
+    analyzeOne lib f s = ⟨if f.debug then dumpRes (lib.tokenize subsetAll s) else [], fmtRes f (lib.tokenize subsetAll s), .ok⟩ := by
+  obtain ⟨ms, d, h⟩ := h
+  simp [analyzeOne, cliSubset, h, fmtRes, dumpRes]
+
+theorem analyzeOne_err (lib : Lib) (f : Flags) (s d : Bytes) (h : lib.tokenize subsetAll s = .err d) :
+    analyzeOne lib f s = ⟨if f.debug then d else [], [], .panic⟩ := by
+  simp [analyzeOne, cliSubset, h]
+
+theorem analyzeSents_ok (lib : Lib) (f : Flags) : ∀ (ss : List Bytes), (∀ s ∈ ss, Accepts lib s) →
+    analyzeSents lib f ss =
+      ⟨if f.debug then (ss.map (fun s => dumpRes (lib.tokenize subsetAll s))).flatten else [],
+       (ss.map (fun s => fmtRes f (lib.tokenize subsetAll s))).flatten, .ok⟩ := by
+  intro ss
+  induction ss with
+  | nil => intro _; simp [analyzeSents]
+  | cons s rest ih =>
+    intro h
+    have hs := analyzeOne_ok lib f s (h s (by simp))
+    have hr := ih (fun x hx => h x (by simp [hx]))
+    simp only [analyzeSents, hs, hr]
+    cases f.debug <;> simp
+
+/-- sentences `us1` accepted, then `s` rejected: the results of `us1`, then a panic; what follows is not looked at -/
+theorem analyzeSents_err (lib : Lib) (f : Flags) (s d : Bytes) (us2 : List Bytes)
+    (hs : lib.tokenize subsetAll s = .err d) : ∀ (us1 : List Bytes), (∀ x ∈ us1, Accepts lib x) →
+    (analyzeSents lib f (us1 ++ s :: us2)).outs = (us1.map (fun x => fmtRes f (lib.tokenize subsetAll x))).flatten ∧
+    (analyzeSents lib f (us1 ++ s :: us2)).exit = .panic := by
+  intro us1
+  induction us1 with
+  | nil => intro _; simp [analyzeSents, analyzeOne_err lib f s d hs]
+  | cons x rest ih =>
+    intro h
+    have hx := analyzeOne_ok lib f x (h x (by simp))
+    have hr := ih (fun y hy => h y (by simp [hy]))
+    simp only [List.cons_append, analyzeSents, hx]
+    simp [hr.1, hr.2]
+
+theorem analyzeLine_ok (lib : Lib) (f : Flags) (text : Bytes) (h : ∀ s ∈ unitsOf lib f text, Accepts lib s) :
+    analyzeLine lib f text = ⟨dumpsLine lib f text, specLine lib f text, .ok⟩ := by
+  unfold analyzeLine specLine dumpsLine
+  cases hsp : f.split with
+  | only => simp [unitsOf, hsp]
+  | none =>
+    have := analyzeOne_ok lib f text (h text (by simp [unitsOf, hsp]))
+    simp only [this, unitsOf, hsp]
+    cases f.debug <;> simp
+  | default =>
+    have := analyzeSents_ok lib f (lib.split text) (by simpa [unitsOf, hsp] using h)
+    simp only [this, unitsOf, hsp]
+
+theorem runLines_ok (lib : Lib) (f : Flags) : ∀ (ls : List Bytes),
+    (∀ l ∈ ls, ∀ s ∈ unitsOf lib f (stripEol f.strip l), Accepts lib s) →
+    runLines lib f ls = ls.map (fun l => ⟨dumpsLine lib f (stripEol f.strip l), specLine lib f (stripEol f.strip l), .ok⟩) := by
+  intro ls
+  induction ls with
+  | nil => intro _; rfl
+  | cons l rest ih =>
+    intro h
+    have hl := analyzeLine_ok lib f (stripEol f.strip l) (h l (by simp))
+    have hr := ih (fun x hx => h x (by simp [hx]))
+    simp [runLines, hl, hr]
+
+theorem exitOf_all_ok : ∀ (evs : List Emit), (∀ e ∈ evs, e.exit = .ok) → exitOf evs = .ok := by
+  intro evs
+  induction evs with
+  | nil => intro _; rfl
+  | cons e rest ih =>
+    intro h
+    cases rest with
+    | nil => simpa [exitOf] using h e (by simp)
+    | cons e2 r2 =>
+      simp only [exitOf]
+      exact ih (fun x hx => h x (by simp [hx]))
+
+/-- lines `pre` accepted, then a line whose analysis panics: the events of `pre`, then that line's, nothing of `post` -/
+theorem runLines_err (lib : Lib) (f : Flags) (l : Bytes) (post : List Bytes)
+    (hl : (analyzeLine lib f (stripEol f.strip l)).exit ≠ .ok) : ∀ (pre : List Bytes),
+    (∀ x ∈ pre, ∀ s ∈ unitsOf lib f (stripEol f.strip x), Accepts lib s) →
+    runLines lib f (pre ++ l :: post) =
+      pre.map (fun x => ⟨dumpsLine lib f (stripEol f.strip x), specLine lib f (stripEol f.strip x), .ok⟩) ++
+        [analyzeLine lib f (stripEol f.strip l)] := by
+  intro pre
+  induction pre with
+  | nil => intro _; simp [runLines, hl]
+  | cons x rest ih =>
+    intro h
+    have hx := analyzeLine_ok lib f (stripEol f.strip x) (h x (by simp))
+    have hr := ih (fun y hy => h y (by simp [hy]))
+    simp [runLines, hx, hr]
+
+theorem exitOf_append_single : ∀ (evs : List Emit) (e : Emit), exitOf (evs ++ [e]) = e.exit := by
+  intro evs
+  induction evs with
+  | nil => intro e; rfl
+  | cons a rest ih =>
+    intro e
+    cases rest with
+    | nil => rfl
+    | cons b r => simpa [exitOf] using ih e
+
+/-! ### the debug flag and the library's answers for other subsets do not reach the writer -/
+
+theorem analyzeOne_congr (lib lib' : Lib) (f f' : Flags) (hw : f.wakati = f'.wakati) (ha : f.all = f'.all)
+    (ht : ∀ t, lib.tokenize subsetAll t = lib'.tokenize subsetAll t) (s : Bytes) :
+    (analyzeOne lib f s).outs = (analyzeOne lib' f' s).outs ∧ (analyzeOne lib f s).exit = (analyzeOne lib' f' s).exit ∧
+    (f.debug = f'.debug → (analyzeOne lib f s).dumps = (analyzeOne lib' f' s).dumps) := by
+  unfold analyzeOne cliSubset
+  rw [ht s]
+  cases lib'.tokenize subsetAll s <;> simp [format, hw, ha] <;> intro h <;> simp [h]
+
+theorem analyzeSents_congr (lib lib' : Lib) (f f' : Flags) (hw : f.wakati = f'.wakati) (ha : f.all = f'.all)
+    (ht : ∀ t, lib.tokenize subsetAll t = lib'.tokenize subsetAll t) : ∀ (ss : List Bytes),
+    (analyzeSents lib f ss).outs = (analyzeSents lib' f' ss).outs ∧ (analyzeSents lib f ss).exit = (analyzeSents lib' f' ss).exit ∧
+    (f.debug = f'.debug → (analyzeSents lib f ss).dumps = (analyzeSents lib' f' ss).dumps) := by
+  intro ss
+  induction ss with
+  | nil => simp [analyzeSents]
+  | cons s rest ih =>
+    obtain ⟨h1, h2, h3⟩ := analyzeOne_congr lib lib' f f' hw ha ht s
+    obtain ⟨i1, i2, i3⟩ := ih
+    simp only [analyzeSents]
+    rw [h2]
+    by_cases hok : (analyzeOne lib' f' s).exit = .ok
+    · simp only [hok, if_true]
+      refine ⟨by rw [h1, i1], i2, ?_⟩
+      intro hd; rw [h3 hd, i3 hd]
+    · simp only [hok, if_false]
+      exact ⟨h1, h2, h3⟩
+
+theorem analyzeLine_congr (lib lib' : Lib) (f f' : Flags) (hw : f.wakati = f'.wakati) (ha : f.all = f'.all) (hs : f.split = f'.split)
+    (ht : ∀ t, lib.tokenize subsetAll t = lib'.tokenize subsetAll t) (hsp : ∀ t, lib.split t = lib'.split t) (text : Bytes) :
+    (analyzeLine lib f text).outs = (analyzeLine lib' f' text).outs ∧ (analyzeLine lib f text).exit = (analyzeLine lib' f' text).exit ∧
+    (f.debug = f'.debug → (analyzeLine lib f text).dumps = (analyzeLine lib' f' text).dumps) := by
+  unfold analyzeLine
+  rw [← hs, hsp text]
+  cases f.split with
+  | only => simp
+  | none => exact analyzeOne_congr lib lib' f f' hw ha ht text
+  | default => exact analyzeSents_congr lib lib' f f' hw ha ht (lib'.split text)
+
+theorem runLines_congr (lib lib' : Lib) (f f' : Flags) (hw : f.wakati = f'.wakati) (ha : f.all = f'.all) (hs : f.split = f'.split)
+    (hst : f.strip = f'.strip)
+    (ht : ∀ t, lib.tokenize subsetAll t = lib'.tokenize subsetAll t) (hsp : ∀ t, lib.split t = lib'.split t) : ∀ (ls : List Bytes),
+    (runLines lib f ls).map (·.outs) = (runLines lib' f' ls).map (·.outs) ∧ exitOf (runLines lib f ls) = exitOf (runLines lib' f' ls) ∧
+    (f.debug = f'.debug → runLines lib f ls = runLines lib' f' ls) := by
+  intro ls
+  induction ls with
+  | nil => simp [runLines]
+  | cons l rest ih =>
+    obtain ⟨h1, h2, h3⟩ := analyzeLine_congr lib lib' f f' hw ha hs ht hsp (stripEol f.strip l)
+    obtain ⟨i1, i2, i3⟩ := ih
+    simp only [runLines]
+    rw [← hst, h2]
+    by_cases hok : (analyzeLine lib' f' (stripEol f.strip l)).exit = .ok
+    · simp only [hok, if_true, List.map_cons]
+      refine ⟨by rw [h1, i1], ?_, ?_⟩
+      · cases hr : runLines lib f rest with
+        | nil =>
+          have : (runLines lib' f' rest).map (·.outs) = [] := by rw [← i1, hr]; rfl
+          have h' : runLines lib' f' rest = [] := by simpa using this
+          simp [exitOf, h', h2, hok]
+        | cons a r =>
+          have : (runLines lib' f' rest).map (·.outs) = a.outs :: r.map (·.outs) := by rw [← i1, hr]; rfl
+          cases hr' : runLines lib' f' rest with
+          | nil => rw [hr'] at this; cases this
+          | cons a' r' => simp only [exitOf]; rw [← hr, ← hr']; exact i2
+      · intro hd
+        have e : analyzeLine lib f (stripEol f.strip l) = analyzeLine lib' f' (stripEol f.strip l) := by
+          have := h3 hd
+          cases ha : analyzeLine lib f (stripEol f.strip l); cases hb : analyzeLine lib' f' (stripEol f.strip l)
+          simp_all
+        rw [e, i3 hd]
+    · simp only [hok, if_false, List.map_cons, List.map_nil, exitOf]
+      refine ⟨by rw [h1], h2, ?_⟩
+      intro hd
+      have := h3 hd
+      cases ha : analyzeLine lib f (stripEol f.strip l); cases hb : analyzeLine lib' f' (stripEol f.strip l)
+      simp_all
+
+/-- without `-d` no event carries a dump -/
+theorem runLines_nodebug_dumps (lib : Lib) (f : Flags) (hdb : f.debug = false) : ∀ (ls : List Bytes), ∀ e ∈ runLines lib f ls, e.dumps = [] := by
+  have h1 : ∀ u, (analyzeOne lib f u).dumps = [] := by
+    intro u; unfold analyzeOne; cases lib.tokenize (cliSubset f) u <;> simp [hdb]
+  have h2 : ∀ ss, (analyzeSents lib f ss).dumps = [] := by
+    intro ss; induction ss with
+    | nil => rfl
+    | cons a rest ih => simp only [analyzeSents]; split <;> simp [h1, ih]
+  have h3 : ∀ t, (analyzeLine lib f t).dumps = [] := by
+    intro t; unfold analyzeLine; cases f.split <;> simp [h1, h2]
+  intro ls
+  induction ls with
+  | nil => intro e he; cases he
+  | cons l rest ih =>
+    intro e he
+    simp only [runLines] at he
+    split at he
+    · simp only [List.mem_cons] at he
+      rcases he with rfl | he
+      · exact h3 _
+      · exact ih e he
+    · simp only [List.mem_singleton] at he; subst he; exact h3 _
+
+theorem flatten_map_nil {α β : Type} (l : List α) (g : α → List β) (h : ∀ a ∈ l, g a = []) : (l.map g).flatten = [] := by
+  induction l with
+  | nil => rfl
+  | cons a rest ih => simp [h a (by simp), ih (fun x hx => h x (by simp [hx]))]
 
 end Cli
